@@ -236,6 +236,13 @@ class TopLevelVisitor(ast.NodeVisitor):
 
         self._finish_queue.append(calldef)
 
+    def visit_AsyncFunctionDef(self, node):
+        """
+        Args:
+            node (ast.AsyncFunctionDef):
+        """
+        self.visit_FunctionDef(node)
+
     def visit_ClassDef(self, node):
         """
         Args:
@@ -691,7 +698,7 @@ class TopLevelVisitor(ast.NodeVisitor):
         if node.decorator_list:
             # Decorators can throw off the line the function is declared on
             linex = node.lineno - 1
-            pattern = r'\s*def\s*' + node.name
+            pattern = r'\s*(async\s+)?def\s*' + node.name
             # I think this is actually robust
             while not re.match(pattern, self.sourcelines[linex]):
                 linex += 1
